@@ -4,6 +4,7 @@ import (
 	"errors"
 	"fmt"
 	"net"
+	"runtime"
 	"sync"
 	"sync/atomic"
 	"time"
@@ -123,7 +124,10 @@ func (h *handler) find(s *stcp.Session) *realSess {
 	return h.w.byName[s.RemoteAddr()]
 }
 
-// Read consumes one byte: 'P' panics, 'E' is a handler error, anything else is counted.
+type c16PanicValue struct{ code int }
+
+// Read consumes one byte.  'E' is a handler error; 'P' 'N' 'R' 'C' panic with a string, with nil, with an error
+// value, with a value of a user type; 'G' calls runtime.Goexit; anything else is counted.
 func (h *handler) Read(s *stcp.Session) error {
 	r := h.find(s)
 	if r != nil && r.sess.Load() == nil {
@@ -137,6 +141,15 @@ func (h *handler) Read(s *stcp.Session) error {
 	switch b[0] {
 	case 'P':
 		panic("c16: read handler panics on command")
+	case 'N':
+		var nothing interface{}
+		panic(nothing)
+	case 'R':
+		panic(errors.New("c16: read handler panics with an error value"))
+	case 'C':
+		panic(c16PanicValue{code: 16})
+	case 'G':
+		runtime.Goexit()
 	case 'E':
 		return errors.New("c16: read handler error on command")
 	}
@@ -432,6 +445,14 @@ func (w *world) issue(l *label, natural bool) error {
 			go r.peerWrite('E')
 		case rkPanic:
 			go r.peerWrite('P')
+		case rkPanicNil:
+			go r.peerWrite('N')
+		case rkPanicErr:
+			go r.peerWrite('R')
+		case rkPanicCustom:
+			go r.peerWrite('C')
+		case rkGoexit:
+			go r.peerWrite('G')
 		}
 	case aWriteFault:
 		if natural {
